@@ -285,7 +285,7 @@ def _sub(name, strat, check, mode, quick, thorough, shards_q, rule):
     return SubCheck(name=name, strategy=strat, check=check, mode=mode,
                     budget={"quick": quick, "thorough": thorough},
                     shards={"quick": shards_q, "thorough": 16 if mode == "nojit" else 8},
-                    time_limit={"quick": 150, "thorough": 1500}, rule=rule)
+                    time_limit={"quick": 240 if mode == "jit" else 150, "thorough": 1500}, rule=rule)
 
 
 R_META = ("non-trivial = N >= 3, finite result and >= 1 tracker with an interval that is not an integer "
